@@ -89,3 +89,62 @@ func verifC11_MuxReload() {
 	m.ServeHTTP(w2, r2)
 	verifAssert(mapper.nw.calls == 1 && w2.status == 201 && mapper.nw.seenPath == "/new/x", "requests-after-the-update-see-the-new-generation")
 }
+
+// ---- the server runtime: listener options and rules belong to one generation ---------------
+
+var (
+	vStartedWith *Spec
+	vStarts      int
+	vCloses      int
+)
+
+// startServer / closeServer open and close real listeners; they are replaced by recorders of
+// WHICH spec the listener is built from (startServer reads r.spec).
+func vStartServer(r *runtime) { vStartedWith = r.spec; vStarts++ }
+func vCloseServer(r *runtime) { vCloses++ }
+
+// verifC11_RuntimeReload: after an update has been applied the server runs on ONE generation:
+// the rules (mux) and the listener options (port, TLS, keep-alive) both come from the new
+// spec; the listener is restarted exactly when a listener option changed.
+func verifC11_RuntimeReload() {
+	mapper := &vGenMapper{old: &vBackend{status: 200}, nw: &vBackend{status: 201}}
+	m := &mux{}
+	m.inst.Store(&muxInstance{spec: &Spec{}})
+	oldSpec := &Spec{Port: 8080, KeepAlive: true, MaxConnections: 10, Rules: []*Rule{{Paths: []*Path{{PathPrefix: "/", Backend: "old"}}}}}
+	r := &runtime{mux: m}
+	vStartedWith, vStarts, vCloses = nil, 0, 0
+	r.reload(vSuper(oldSpec), mapper)
+	verifAssert(vStarts == 1 && vStartedWith == oldSpec && vCloses == 0, "first-load-starts-the-server-with-its-spec")
+
+	newSpec := &Spec{Port: 8080, KeepAlive: true, MaxConnections: 10, Rules: []*Rule{{Paths: []*Path{{PathPrefix: "/", Backend: "new"}}}}}
+	restart := false
+	switch verifChoose("changedOption", 5) {
+	case 0: // rules only
+	case 1:
+		newSpec.Port = 9090
+		restart = true
+	case 2:
+		newSpec.KeepAlive = false
+		restart = true
+	case 3:
+		newSpec.HTTP3 = true
+		restart = true
+	case 4:
+		newSpec.MaxConnections = 20 // applied to the running listener, no restart
+	}
+	r.reload(vSuper(newSpec), mapper)
+	verifAssert(r.spec == newSpec, "runtime-holds-the-new-spec")
+	if restart {
+		verifAssert(vCloses == 1 && vStarts == 2, "listener-option-change-restarts-the-server-once")
+		verifAssert(vStartedWith == newSpec, "restarted-listener-is-built-from-the-new-generation")
+		verifCover("restarted")
+	} else {
+		verifAssert(vCloses == 0 && vStarts == 1, "rule-only-change-does-not-restart")
+		verifCover("not-restarted")
+	}
+	// and the rules are the new generation's
+	w := &vWriter{hdr: http.Header{}}
+	std := &http.Request{Method: "GET", Host: "h", URL: &url.URL{Path: "/x"}, Header: http.Header{}, Body: &vReqBody{}, RemoteAddr: "9.9.9.9:1"}
+	m.ServeHTTP(w, std)
+	verifAssert(mapper.nw.calls == 1 && mapper.old.calls == 0, "rules-are-the-new-generations")
+}
